@@ -55,11 +55,11 @@ def runVarIns (f : LF) (vars : List VarH) : VarIns → Res (LF × List VarH)
     let (f', rs) ← varOperation f av resultTypes label
     pure (f', vars ++ rs)
 
-/-- `build(|state| …)`: declare `nIn` input variables, run the program, then take a fresh source of
+/-- `build(|state| …)`: declare one input variable per entry of `inLabels` (its node label), run the program, then take a fresh source of
     every input and a fresh target of every output as the interfaces -/
-def varBuildProg (nIn : Nat) (prog : List VarIns) (outs : List Nat) : Res LF := do
-  let (f0, inputs) := (List.range nIn).foldl (fun (acc : LF × List VarH) _ =>
-    let (f', v) := varNew acc.1 0
+def varBuildProg (inLabels : List Nat) (prog : List VarIns) (outs : List Nat) : Res LF := do
+  let (f0, inputs) := inLabels.foldl (fun (acc : LF × List VarH) lab =>
+    let (f', v) := varNew acc.1 lab
     (f', acc.2 ++ [v])) ((LOHG.empty : LF), [])
   let (f, vars) ← prog.foldlM (fun (acc : LF × List VarH) ins => runVarIns acc.1 acc.2 ins) (f0, inputs)
   let outv ← outs.mapM (getVar vars)
